@@ -137,3 +137,5 @@ func scratchDone(dir string) {
 		_ = os.RemoveAll(dir)
 	}
 }
+
+func symClock(on bool) {}
